@@ -45,7 +45,10 @@
 (*   PrevTimeNoDerivative; TreeConforms is conformance (mechanism).        *)
 (* Design-level invariants (checked in OperatorTreeEnum on the whole       *)
 (*   enumerated space): ParseAgreesDirect, ValueModeConsistent,            *)
-(*   PrevNoDerivative, NoNumpyCapture, BuildDefined.                       *)
+(*   PrevNoDerivative, NoNumpyCapture, BuildDefined (LawsOf = all of them).*)
+(* With ReflectedStyle = "rtag" or UfuncOptOut = FALSE (the code before    *)
+(* 1a3b69b2e) TLC refutes ParseAgreesDirect at  2.0 / v  and BuildDefined   *)
+(* at  ndarray / v.                                                        *)
 (***************************************************************************)
 EXTENDS Integers, Sequences, FiniteSets, TLC
 
@@ -446,7 +449,6 @@ Equiv(t, u) ==
          [] t[1] = "neg" -> Equiv(t[2], u[2])
          [] OTHER -> FALSE
 
-\* does a method-level term contain "ndarray op AdArray" left to numpy?  (kinds are recomputed by Parse; the marker is KO)
 RECURSIVE TreeEq(_, _)
 TreeEq(x, y) ==      \* structural equality of built trees (x from JSON, y from Build), safe for TLC's strict equality
   IF x[1] # y[1] \/ Len(x) # Len(y) THEN FALSE
